@@ -30,7 +30,7 @@ def main():
 
     def build(m):
         ids = np.array(m['node_ids'], dtype=np.int64)
-        xyz = np.array(m['xyz'], dtype=float)
+        xyz = np.array(m['xyz'], dtype=float).astype(m.get('xyz_dtype') or 'float64')
         eids = np.array(m['elem_ids'], dtype=np.int64)
         et = m['etype']
         if m.get('blocks'):
@@ -57,14 +57,21 @@ def main():
                         'col': [int(x) for x in A.col], 'data': hx(A.data)})
         return out
 
-    def call(fd, kind, kw, data, res):
+    def call(fd, kind, kw, data, res, falsy=None, data_dtype='float'):
         kw = dict(kw)
+        if falsy:
+            # boolean flags as falsy / truthy values that are not bool
+            fv = {'none': None, 'zero': 0, 'npfalse': np.False_}[falsy]
+            for name in ('moment_matrix', 'consider_volume', 'use_effective_volume'):
+                if name in kw:
+                    kw[name] = (np.True_ if falsy == 'npfalse' else 1) if kw[name] else fv
+            kw['n_hop'] = np.int64(kw['n_hop'])
         if kind == 'matrices':
             mats = fd.calculate_spatial_gradient_adjacency_matrices(**kw)
             res['n_matrices'] = len(mats)
             res['matrices'] = coo(mats)
         elif kind == 'conv':
-            arr = np.array(data, dtype=float)
+            arr = np.array(data, dtype={'float': float, 'int': np.int64, 'bool': bool}[data_dtype])
             mode = kw.pop('mode')
             if mode == 'nodal':
                 g = fd.calculate_nodal_spatial_gradients(arr, **kw)
@@ -75,6 +82,43 @@ def main():
             res['grad'] = hx(g)
         else:
             raise ValueError(kind)
+
+    def snapshot(fd):
+        et = fd.elements.element_type
+        # the coordinates the gradient code reads are nodal_data['NODE']
+        # (calculate_spatial_gradient_adjacency_matrices, convert_nodal2elemental);
+        # fem_data.nodes is reported next to it
+        node_attr = fd.nodal_data.get_attribute_data('NODE')
+        return {'etype': et, 'node_ids': [int(x) for x in fd.nodes.ids],
+                'xyz': [[float(c).hex() for c in p] for p in np.asarray(node_attr, dtype=float)],
+                'xyz_nodes': [[float(c).hex() for c in p] for p in np.asarray(fd.nodes.data, dtype=float)],
+                'NODE_ids': [int(x) for x in fd.nodal_data['NODE'].ids],
+                'elem_ids': [int(x) for x in fd.elements.ids],
+                'conn': [[int(x) for x in e] for e in fd.elements.data]}
+
+    def modify(fd, st):
+        """in-place modifications of the mesh through femio's public interface;
+        arrays are given keyed by id and laid out in the CURRENT storage order"""
+        op = st['op']
+        if op == 'set_nodes':            # fem_data.nodes.data = new array
+            fd.nodes.data = np.array([st['by_id'][str(int(i))] for i in fd.nodes.ids], dtype=float)
+        elif op == 'edit_nodes':         # nodes.data[...] = ... (same array, edited in place)
+            arr = fd.nodes.data
+            for k, i in enumerate(fd.nodes.ids):
+                if str(int(i)) in st['by_id']:
+                    arr[k] = st['by_id'][str(int(i))]
+        elif op == 'set_conn_new':       # fem_data.elements.data = new array
+            fd.elements.data = np.array([st['by_eid'][str(int(i))] for i in fd.elements.ids],
+                                        dtype=np.int64)
+        elif op == 'set_conn_same':      # conn = elements.data; conn[...] = ...; elements.data = conn
+            conn = fd.elements.data
+            for k, i in enumerate(fd.elements.ids):
+                conn[k] = st['by_eid'][str(int(i))]
+            fd.elements.data = conn
+        elif op == 'remove_useless_nodes':
+            fd.remove_useless_nodes()
+        else:
+            raise ValueError(op)
 
     results = []
     for job in spec['jobs']:
@@ -92,12 +136,27 @@ def main():
                     for st in job['steps']:
                         r = {}
                         try:
-                            call(fd, st['kind'], st['kw'], st.get('data'), r)
+                            if st['kind'] == 'modify':
+                                modify(fd, st)
+                                r['snapshot'] = snapshot(fd)
+                            else:
+                                data = st.get('data')
+                                if st.get('data_by_id') is not None:
+                                    # data keyed by vertex id -> current storage order
+                                    ids_now = fd.nodes.ids if st['kw']['mode'] == 'nodal' \
+                                        else fd.elements.ids
+                                    data = [st['data_by_id'][str(int(i))] for i in ids_now]
+                                call(fd, st['kind'], st['kw'], data, r)
+                                if st['kw'].get('consider_volume') and 'volume' in fd.elemental_data:
+                                    # what the object itself holds as element volumes
+                                    r['slot_volumes'] = hx(fd.elemental_data.get_attribute_data('volume'))
+                                    r['slot_elem_ids'] = [int(x) for x in fd.elements.ids]
                         except Exception as e:
                             r['error'] = type(e).__name__ + ': ' + str(e)[:300]
                         res['steps'].append(r)
                 else:
-                    call(fd, job['kind'], job.get('kw', {}), job.get('data'), res)
+                    call(fd, job['kind'], job.get('kw', {}), job.get('data'), res,
+                         falsy=job.get('falsy'), data_dtype=job.get('data_dtype', 'float'))
         except Exception as e:   # reported, compared with the model's rejection
             res['error'] = type(e).__name__ + ': ' + str(e)[:300]
             res['trace'] = traceback.format_exc()[-1500:]
